@@ -301,9 +301,11 @@ func (dc *DocumentChunker) createListChunk(list *model.List, docTitle string, se
 		}
 		lastLevel = item.Level
 
-		// Add indentation (2 spaces per level)
+		// Add indentation (4 spaces per level: a nested item must start at or
+		// beyond the content column of its parent, which is 3 for "1. ";
+		// 2 spaces under a numbered item are not nesting in CommonMark)
 		for j := 0; j < item.Level; j++ {
-			sb.WriteString("  ")
+			sb.WriteString("    ")
 		}
 
 		if list.Ordered {
